@@ -158,6 +158,11 @@ class Gen:
             name = self.names.new('libb' if tag in LIBTAGS else 'b', ext if ext != '/' else '', plain=True)
             self.objs.append((lab, tag, 'build'))
             return {'op': 'file', 'kind': kind, 'arg': ('bpath', name), 'dist': dist, 'label': lab}
+        if r < 0.16 and kind in ('generic_file', 'source_file', 'header_file', 'auto_file'):
+            # absolute path outside the project: never registered
+            self.objs.append((lab, tag if tag != 'dir' else 'file', 'abs'))
+            return {'op': 'file', 'kind': kind, 'arg': ('apath', '/nonexistent/c18/a%d%s' % (lab, ext.rstrip('/'))),
+                    'dist': dist, 'label': lab}
         if r < 0.22 and kind not in ('auto_file', 'man_page'):
             o = self.pick_obj(LIBTAGS if kind == 'library' else (tag,))
             if o:
@@ -188,7 +193,9 @@ class Gen:
         deep = self.rng.random() < 0.4
         spec = {'dir': fd, 'pattern': ('**/*' if deep else '*') + ('' if star else ext),
                 'extra': self.rng.choice([None, '*.hpp', '*.hpp']), 'exclude': self.rng.choice([None, '*_skip*']),
-                'filter': self.rng.choice([None, None, 'platform', 'lambda']),
+                # a lambda filter makes the whole find cache unserialisable (no cache hits on regeneration): the
+                # regeneration projects do without
+                'filter': self.rng.choice([None, None, 'platform'] + ([] if self.regen else ['lambda'])),
                 'type': None, 'cache': self.rng.random() < 0.8, 'dist': self.rng.random() < 0.8}
         if star:
             spec['type'] = self.rng.choice(['*', 'f', 'd', None])
@@ -267,6 +274,8 @@ class Gen:
             else:
                 # Edge.make resolves extra_deps strings against the srcdir root, not the script directory
                 name = self.names.new('dep', '.txt')
+                if self.rng.random() < 0.15:
+                    name = self.names.new('depdir') + '/'
                 p = self.touch('', name)
                 self.mark(p, True)
                 self.refs.add(p)
@@ -477,6 +486,8 @@ def r_arg(a, d):
         return 'Path(%r, Root.srcdir)' % v
     if t == 'bpath':
         return 'Path(%r, Root.builddir)' % v
+    if t == 'apath':
+        return 'Path(%r, Root.absolute)' % v
     if t == 'obj':
         return 'N[%d]' % v
     if t == 'objs':
@@ -901,9 +912,15 @@ def check_project(rep, g, tag, regen=False):
             newf = os.path.join(src, fd, 'znew_added.c')
             with open(newf, 'w') as f:
                 f.write('int znew;\n')
-            future = os.stat(os.path.join(s.build, 'Makefile')).st_mtime + 5
-            os.utime(newf, (future, future))
-            os.utime(os.path.join(src, fd), (future, future))
+            # explicit mtimes: sources oldest, build outputs newer, the added file and its directory newest (all in
+            # the past, so that one regeneration settles it)
+            now = os.stat(os.path.join(s.build, 'Makefile')).st_mtime
+            for top, t in ((src, now - 300), (s.build, now - 200)):
+                for dp, dns, fns in os.walk(top):
+                    for n in dns + fns:
+                        os.utime(os.path.join(dp, n), (t, t))
+            os.utime(newf, (now - 100, now - 100))
+            os.utime(os.path.join(src, fd), (now - 100, now - 100))
             os.remove(os.path.join(s.build, tars[0]))
             rc, _, out = project.make(s.build, ['dist'])
             if rc != 0:
@@ -1001,6 +1018,8 @@ class ToModel:
             return [0, m_node('src', v.rstrip('/'))]
         if t == 'bpath':
             return [0, m_node('build', v.rstrip('/'))]
+        if t == 'apath':
+            return [0, m_node('abs', v)]
         return [1, self.idx[v]]
 
     def args(self, l, d, dep=False):
@@ -1047,7 +1066,7 @@ class ToModel:
             if op == 'file':
                 a = self.arg(st['arg'], d)
                 if a[0] == 0:
-                    self.paths[st['label']] = ('src' if a[1][0] == 0 else 'build', a[1][1])
+                    self.paths[st['label']] = ({0: 'src', 1: 'build', 2: 'abs'}[a[1][0]], a[1][1])
                 else:
                     src = st['arg'][1]
                     if src in self.paths:
@@ -1299,7 +1318,11 @@ def run(rep):
                  {'stage': 'probe', 'files': {'build.bfg': "find_files('d/*.c', extra='*.h')\n", 'd/a.c': '', 'd/a.h': ''},
                   'repro': 'configure, add d/b.c, make dist: d/a.h is missing'}, classes=('find-cache-hit-extra',))
     nd = stage_w(rep, rng, 150 if thorough else 40, fixed, ip)
+    before = len(rep.violations)
     stage_system(rep, rng, 30 if thorough else 3, 8 if thorough else 1)
+    if nd and len(rep.violations) == before:
+        # the tie broke but the oracle saw nothing: look for a failing input with ten times the budget
+        stage_system(rep, rng, 60 if thorough else 30, 15 if thorough else 8)
 
 
 def replay(rep, path):
